@@ -4,8 +4,10 @@ go 1.22.0
 
 require (
 	github.com/coredhcp/coredhcp v0.0.0
+	github.com/google/gopacket v1.1.19
 	github.com/insomniacslk/dhcp v0.0.0-20241203100832-a481575ed0ef
 	github.com/mattn/go-sqlite3 v1.14.24
+	golang.org/x/net v0.34.0
 )
 
 require (
